@@ -1,9 +1,14 @@
 import MoneroModel.Proofs.Address
 import MoneroModel.Proofs.AddressForms
 import MoneroModel.Proofs.AddressSpec
+import MoneroModel.Proofs.AddressFormsSpec
+import MoneroModel.Proofs.AddressKAT
 import MoneroModel.Proofs.Base58Bij
 import MoneroModel.Proofs.Base58Imp
 import MoneroModel.Ref.Keccak
+import MoneroModel.Model.Keys
+import MoneroModel.Proofs.KeysSound
+import MoneroModel.Proofs.KeysRef
 open Monero Monero.Address
 /-! # C12 — the address text form round-trips, is Monero's, and is the only accepted spelling
 
@@ -13,7 +18,16 @@ Objects. `Monero.Address.{fromBytes, asBytes, toStr, fromStr, asHex, fromHex, co
 The tag tables are the generated ones of C20. Every theorem holds for EVERY checksum function `H` and EVERY key
 acceptance test `vk`; where a length is needed the hypothesis is `hH : ∀ x, 4 ≤ (H x).length` (true of Keccak-256, see the
 `example` at the end). `WF vk a` describes the addresses the public constructors can build: two accepted 32-byte keys and
-an 8-byte payment id exactly for integrated addresses. -/
+an 8-byte payment id exactly for integrated addresses.
+
+Scope notes. (1) `Address` has public fields and `PublicKey` a public `point`, so a Rust caller can assemble an `Address`
+whose key bytes are not an accepted key; `as_bytes` / `to_string` succeed on it and `from_str (to_string a)` fails. Such
+values are outside `WF` and outside the property ("valid public keys"). (2) Error kinds are not modelled: every `Err(_)`
+is `none`. (3) `&str` input is modelled by its UTF-8 bytes; bytes ≥ 0x80 are not in the base58 / hex alphabets, so every
+non-ASCII text is rejected by the model for that reason, while the executor of the harness answers `err` for byte strings
+that are not UTF-8 without calling the library (they cannot be passed as `&str`). (4) The general theorems are stated for
+abstract `H`, `vk`; the `*_ed25519` theorems instantiate them with Keccak-256 and the model of `PublicKey::from_slice`,
+which is what the driver executes on the model side (the spec side runs the RFC 8032 reference decoder). -/
 namespace C12
 variable (H : Bytes → Bytes) (vk : Bytes → Bool)
 
@@ -208,6 +222,37 @@ theorem C12_hex_blob_canonical (s : List UInt8) (a : Address) (h : fromHex H vk 
   | none => simp [hd] at h
   | some b => simp only [hd] at h; rw [C12_bytes_canonical H vk b a h]
 
+/-! ## hex and consensus forms = the by-the-book forms (G07) -/
+
+/-- `as_hex` is the lowercase hexadecimal of the by-the-book blob (2·69 = 138 or 2·77 = 154 characters) -/
+theorem C12_hex_is_spec (a : Address) (hw : WF vk a) :
+    asHex H a = Spec.Address.hexOf (Spec.Address.blob H a.net a.kind a.spend a.view a.pid) := by
+  have hpid : a.kind ≠ .Integrated → a.pid = [] := fun hk => by simpa [hk] using hw.2.2.2.2
+  rw [asHex, HexM.encode_eq_hexOf, asBytes_eq_blob H a hpid]
+
+/-- `consensus_encode` is one length byte (69 or 77) followed by the by-the-book blob -/
+theorem C12_consensus_is_spec (a : Address) (hw : WF vk a) (hH : ∀ x, 4 ≤ (H x).length) :
+    consensusEncode H a =
+      UInt8.ofNat (if a.kind = .Integrated then 77 else 69) :: Spec.Address.blob H a.net a.kind a.spend a.view a.pid :=
+  consensusEncode_eq_spec H vk a hw hH
+
+/-- the model of `hex::FromHex for Address` IS the by-the-book hex parser (optional `0x`, an even number of digits of
+either case, then the by-the-book blob parser), on EVERY input -/
+theorem C12_parse_hex_is_monero (s : List UInt8) (hH : ∀ x, 4 ≤ (H x).length) :
+    fromHex H vk s = (Spec.Address.parseHex H vk s).map fun (n, k, sp, v, p) => (⟨n, k, p, sp, v⟩ : Address) := by
+  rw [fromHex, HexM.decode_eq_unhexDigits, parseHex_eq]
+  cases Spec.Address.unhexDigits (stripPrefix0x s) with
+  | none => rfl
+  | some b => exact C12_parse_is_monero H vk b hH
+
+/-- the model of `Decodable for Address` IS the by-the-book consensus parser (one length byte < 128, that many bytes, the
+by-the-book blob parser), on EVERY input: same acceptance set, same address, same number of bytes consumed -/
+theorem C12_parse_consensus_is_monero (b : Bytes) (hH : ∀ x, 4 ≤ (H x).length) :
+    consensusDecode H vk b = (Spec.Address.parseConsensus H vk b).map
+      fun ((n, k, sp, v, p), used) => ((⟨n, k, p, sp, v⟩ : Address), b.drop used) :=
+  consensusDecode_eq_spec H vk b hH
+-- end G07 forms block
+
 /-! ## rejections (corollaries) -/
 
 /-- a first byte that is not one of Monero's nine tags -/
@@ -287,6 +332,178 @@ theorem C12_rejects :
     (∀ (s : List UInt8), Base58.decode s = none → fromStr H vk s = none) :=
   ⟨C12_rejects_unknown_tag H vk, C12_rejects_checksum H vk, C12_rejects_invalid_key H vk, C12_rejects_short H vk,
    C12_rejects_trailing H vk, fun s h => by rw [fromStr, B58.decode_eq _ _ rfl, h]⟩
+
+/-! ## instantiation: Keccak-256 checksum, Ed25519 key acceptance as the library computes it (G07) -/
+
+/-- Keccak-256 digests are 32 bytes long, so the length hypothesis `hH` of the theorems above holds for it -/
+private theorem keccak_len (x : Bytes) : 4 ≤ (Keccak.keccak256 x).length := by simp [Keccak.keccak256]
+
+/-- the reference key test "RFC 8032 decoding succeeds" is, as a function, the library's key test -/
+private theorem refKey_eq : (fun k : Bytes => (Ed.decodePt k).isSome) = Keys.publicAccept :=
+  funext fun k => (Keys.publicAccept_eq_ref k).symm
+
+/-- text length: 95 characters, 106 for integrated addresses (11 per 8 bytes: 69 = 8·8+5 ↦ 88+7, 77 = 9·8+5 ↦ 99+7) —
+for every checksum function with at least four bytes of output and every key test -/
+theorem C12_text_length (a : Address) (hw : WF vk a) (hH : ∀ x, 4 ≤ (H x).length) :
+    ∃ s, toStr H a = some s ∧ s.length = if a.kind = .Integrated then 106 else 95 := by
+  refine ⟨Base58.encode (asBytes H a), B58.encode_eq _, ?_⟩
+  rw [C12_b58_length, ((C12_layout H vk a).2 hw hH).2]
+  split <;> rfl
+
+/-- `from_bytes` with the real hash and the real key test (dalek decompress, recompress, compare) IS the by-the-book
+parser whose key test is "RFC 8032 decoding succeeds" — the two DIFFERENT predicates the driver runs on the model side
+and on the spec side -/
+theorem C12_parse_is_monero_ed25519 (b : Bytes) :
+    fromBytes Keccak.keccak256 Keys.publicAccept b =
+      (Spec.Address.parse Keccak.keccak256 (fun k => (Ed.decodePt k).isSome) b).map
+        fun (n, k, s, v, p) => (⟨n, k, p, s, v⟩ : Address) := by
+  rw [refKey_eq]; exact C12_parse_is_monero _ _ b keccak_len
+
+/-- the same for `FromStr` -/
+theorem C12_parse_text_is_monero_ed25519 (s : List UInt8) :
+    fromStr Keccak.keccak256 Keys.publicAccept s =
+      (Spec.Address.parseText Keccak.keccak256 (fun k => (Ed.decodePt k).isSome) s).map
+        fun (n, k, sp, v, p) => (⟨n, k, p, sp, v⟩ : Address) := by
+  rw [refKey_eq]; exact C12_parse_text_is_monero _ _ s keccak_len
+
+/-- the same for `hex::FromHex` -/
+theorem C12_parse_hex_is_monero_ed25519 (s : List UInt8) :
+    fromHex Keccak.keccak256 Keys.publicAccept s =
+      (Spec.Address.parseHex Keccak.keccak256 (fun k => (Ed.decodePt k).isSome) s).map
+        fun (n, k, sp, v, p) => (⟨n, k, p, sp, v⟩ : Address) := by
+  rw [refKey_eq]; exact C12_parse_hex_is_monero _ _ s keccak_len
+
+/-- the same for `Decodable` -/
+theorem C12_parse_consensus_is_monero_ed25519 (b : Bytes) :
+    consensusDecode Keccak.keccak256 Keys.publicAccept b =
+      (Spec.Address.parseConsensus Keccak.keccak256 (fun k => (Ed.decodePt k).isSome) b).map
+        fun ((n, k, sp, v, p), used) => ((⟨n, k, p, sp, v⟩ : Address), b.drop used) := by
+  rw [refKey_eq]; exact C12_parse_consensus_is_monero _ _ b keccak_len
+
+/-- every encoding whose y field lies in [p, 2^255) is rejected by the library's key test, either sign bit
+(as `C13_rejects_noncanonical_y`, from `publicAccept_sound`) -/
+private theorem publicAccept_noncanonical_y (k : Bytes) (hy : Ed.p ≤ Ed.leNat k % 2 ^ 255) :
+    Keys.publicAccept k = false := by
+  cases h : Keys.publicAccept k with
+  | false => rfl
+  | true => exact absurd (Keys.publicAccept_sound k h).2.1 (Nat.not_lt.mpr hy)
+
+set_option maxRecDepth 100000 in
+/-- the two negative-zero encodings are rejected and the identity encoding is accepted, by evaluation of the model in
+the kernel (as `C13_rejects_negative_zero_encodings`) -/
+private theorem publicAccept_eval :
+    Keys.publicAccept (Ed.toBytesLE (1 + 2 ^ 255) 32) = false ∧
+    Keys.publicAccept (Ed.toBytesLE (Ed.p - 1 + 2 ^ 255) 32) = false ∧
+    Keys.publicAccept (Ed.toBytesLE 1 32) = true := by decide +kernel
+
+/-- "invalid or non-canonical keys rejected", stated on the real key test: a blob whose spend-key field (bytes 1..33) or
+view-key field (bytes 33..65) has its y coordinate ≥ p (either sign bit) is rejected, whatever its tag, length and
+checksum -/
+theorem C12_rejects_noncanonical_key_ed25519 (b : Bytes)
+    (h : Ed.p ≤ Ed.leNat ((b.drop 1).take 32) % 2 ^ 255 ∨ Ed.p ≤ Ed.leNat ((b.drop 33).take 32) % 2 ^ 255) :
+    fromBytes Keccak.keccak256 Keys.publicAccept b = none :=
+  C12_rejects_invalid_key _ _ b (h.imp (publicAccept_noncanonical_y _) (publicAccept_noncanonical_y _))
+
+/-- … a key field that is not the encoding of a curve point at all (RFC 8032 decoding fails: wrong length because the
+blob is short, y ≥ p, x² has no root, or x = 0 with the sign bit) -/
+theorem C12_rejects_undecodable_key_ed25519 (b : Bytes)
+    (h : Ed.decodePt ((b.drop 1).take 32) = none ∨ Ed.decodePt ((b.drop 33).take 32) = none) :
+    fromBytes Keccak.keccak256 Keys.publicAccept b = none :=
+  C12_rejects_invalid_key _ _ b
+    (h.imp (fun h => by rw [Keys.publicAccept_eq_ref, h]; rfl) (fun h => by rw [Keys.publicAccept_eq_ref, h]; rfl))
+
+/-- the two negative-zero encodings (x = 0 with the sign bit set: y = 1 and y = p − 1) in either key field -/
+theorem C12_rejects_negative_zero_key_ed25519 (b : Bytes) (k : Bytes)
+    (hk : k = Ed.toBytesLE (1 + 2 ^ 255) 32 ∨ k = Ed.toBytesLE (Ed.p - 1 + 2 ^ 255) 32)
+    (h : (b.drop 1).take 32 = k ∨ (b.drop 33).take 32 = k) :
+    fromBytes Keccak.keccak256 Keys.publicAccept b = none := by
+  have hk' : Keys.publicAccept k = false := by
+    rcases hk with rfl | rfl
+    · exact publicAccept_eval.1
+    · exact publicAccept_eval.2.1
+  exact C12_rejects_invalid_key _ _ b (h.imp (fun e => by rw [e]; exact hk') (fun e => by rw [e]; exact hk'))
+
+/-- accepted ⇒ both key fields are canonical encodings of curve points, the blob is the canonical one of the address
+returned, length 69/77, and the last four bytes are the first four of Keccak-256 of the rest -/
+theorem C12_accepted_ed25519 (b : Bytes) (a : Address)
+    (h : fromBytes Keccak.keccak256 Keys.publicAccept b = some a) :
+    (Ed.decodePt a.spend).isSome ∧ (Ed.decodePt a.view).isSome ∧ asBytes Keccak.keccak256 a = b ∧
+    b.length = (if a.kind = .Integrated then 77 else 69) ∧
+    b.drop (b.length - 4) = (Keccak.keccak256 (b.take (b.length - 4))).take 4 := by
+  obtain ⟨_, _, hvs, hvv, _⟩ := C12_bytes_wf _ _ b a h
+  obtain ⟨_, _, _, _, hl⟩ := C12_length_of_accepted _ _ b a h
+  refine ⟨by rw [← Keys.publicAccept_eq_ref]; exact hvs, by rw [← Keys.publicAccept_eq_ref]; exact hvv,
+    C12_bytes_canonical _ _ b a h, hl, ?_⟩
+  apply Classical.byContradiction
+  intro hne
+  have := C12_rejects_checksum Keccak.keccak256 Keys.publicAccept b (fun e => hne e.symm)
+  rw [this] at h
+  exact absurd h (by simp)
+
+/-- round trips of every form with the real hash and key test -/
+theorem C12_roundtrips_ed25519 (a : Address) (hw : WF Keys.publicAccept a) :
+    fromBytes Keccak.keccak256 Keys.publicAccept (asBytes Keccak.keccak256 a) = some a ∧
+    (∃ s, toStr Keccak.keccak256 a = some s ∧ s.length = (if a.kind = .Integrated then 106 else 95) ∧
+      fromStr Keccak.keccak256 Keys.publicAccept s = some a) ∧
+    fromHex Keccak.keccak256 Keys.publicAccept (asHex Keccak.keccak256 a) = some a ∧
+    ∀ rest, consensusDecode Keccak.keccak256 Keys.publicAccept (consensusEncode Keccak.keccak256 a ++ rest)
+      = some (a, rest) := by
+  refine ⟨C12_bytes_roundtrip _ _ a hw keccak_len, ?_, (C12_hex_roundtrip _ _ a hw keccak_len).1,
+    fun rest => C12_consensus_roundtrip _ _ a rest hw keccak_len⟩
+  obtain ⟨s, hs, hl⟩ := C12_text_length Keccak.keccak256 Keys.publicAccept a hw keccak_len
+  obtain ⟨s', hs', hf⟩ := C12_str_roundtrip Keccak.keccak256 Keys.publicAccept a hw keccak_len
+  rw [hs] at hs'
+  obtain rfl := Option.some.inj hs'
+  exact ⟨s, hs, hl, hf⟩
+
+/-- `WF Keys.publicAccept` is satisfiable: the identity encoding (y = 1, x = 0, sign bit clear) is an accepted key -/
+example : WF Keys.publicAccept ⟨.Mainnet, .Standard, [], Ed.toBytesLE 1 32, Ed.toBytesLE 1 32⟩ :=
+  ⟨by simp [Ed.toBytesLE], by simp [Ed.toBytesLE], publicAccept_eval.2.2, publicAccept_eval.2.2, by simp⟩
+-- end G07 instantiation block
+
+/-! ## known answers: two address strings that exist outside this project (G07) -/
+
+private theorem known_answer (a : Address) (blob : Bytes) (txt : List UInt8)
+    (hb : Spec.Address.blob Keccak.keccak256 a.net a.kind a.spend a.view a.pid = blob) (ht : Base58.encode blob = txt)
+    (hw : WF Keys.publicAccept a) :
+    Spec.Address.text Keccak.keccak256 a.net a.kind a.spend a.view a.pid = txt ∧
+    toStr Keccak.keccak256 a = some txt ∧ fromStr Keccak.keccak256 Keys.publicAccept txt = some a := by
+  have h1 : Spec.Address.text Keccak.keccak256 a.net a.kind a.spend a.view a.pid = txt := by
+    rw [Spec.Address.text, hb, ht]
+  have h2 : toStr Keccak.keccak256 a = some txt := by rw [C12_str_is_monero _ _ a hw, h1]
+  obtain ⟨s, hs, hf⟩ := C12_str_roundtrip Keccak.keccak256 Keys.publicAccept a hw keccak_len
+  rw [h2] at hs
+  obtain rfl := Option.some.inj hs
+  exact ⟨h1, h2, hf⟩
+
+/-- Known answer, integrated address: the vector of the library's own test-suite (keys and payment id given there as
+bytes, Proofs/AddressKAT.lean). The by-the-book text (hand tag table, reference Keccak-256, reference base58) IS the
+wallet's string, the model of `Display` produces it, and the model of `FromStr` (with the model of
+`PublicKey::from_slice`) reads it back. One Keccak evaluation in the kernel; nothing here depends on `Ref/Base58` and the
+crate model having been written by the same hand — the string comes from outside. -/
+theorem C12_known_answer_integrated :
+    Spec.Address.text Keccak.keccak256 .Mainnet .Integrated AddressKAT.integratedAddr.spend AddressKAT.integratedAddr.view
+        AddressKAT.integratedAddr.pid
+      = AddressKAT.str "4Byr22j9M2878Mtyb3fEPcBNwBZf5EXqn1Yi6VzR46618SFBrYysab2Cs1474CVDbsh94AJq7vuV3Z2DRq4zLcY3LHzo1Nbv3d8J6VhvCV" ∧
+    toStr Keccak.keccak256 AddressKAT.integratedAddr
+      = some (AddressKAT.str "4Byr22j9M2878Mtyb3fEPcBNwBZf5EXqn1Yi6VzR46618SFBrYysab2Cs1474CVDbsh94AJq7vuV3Z2DRq4zLcY3LHzo1Nbv3d8J6VhvCV") ∧
+    fromStr Keccak.keccak256 Keys.publicAccept
+        (AddressKAT.str "4Byr22j9M2878Mtyb3fEPcBNwBZf5EXqn1Yi6VzR46618SFBrYysab2Cs1474CVDbsh94AJq7vuV3Z2DRq4zLcY3LHzo1Nbv3d8J6VhvCV")
+      = some AddressKAT.integratedAddr :=
+  known_answer _ _ _ AddressKAT.integrated_blob AddressKAT.integrated_b58 AddressKAT.integrated_wf
+
+/-- Known answer, standard address: the Monero project's donation address (its public view key is `v·G` for the
+published secret view key; the harness checks that with dalek). -/
+theorem C12_known_answer_donation :
+    Spec.Address.text Keccak.keccak256 .Mainnet .Standard AddressKAT.donationAddr.spend AddressKAT.donationAddr.view []
+      = AddressKAT.str "44AFFq5kSiGBoZ4NMDwYtN18obc8AemS33DBLWs3H7otXft3XjrpDtQGv7SqSsaBYBb98uNbr2VBBEt7f2wfn3RVGQBEP3A" ∧
+    toStr Keccak.keccak256 AddressKAT.donationAddr
+      = some (AddressKAT.str "44AFFq5kSiGBoZ4NMDwYtN18obc8AemS33DBLWs3H7otXft3XjrpDtQGv7SqSsaBYBb98uNbr2VBBEt7f2wfn3RVGQBEP3A") ∧
+    fromStr Keccak.keccak256 Keys.publicAccept
+        (AddressKAT.str "44AFFq5kSiGBoZ4NMDwYtN18obc8AemS33DBLWs3H7otXft3XjrpDtQGv7SqSsaBYBb98uNbr2VBBEt7f2wfn3RVGQBEP3A")
+      = some AddressKAT.donationAddr :=
+  known_answer _ _ _ AddressKAT.donation_blob AddressKAT.donation_b58 AddressKAT.donation_wf
+-- end G07 known-answer block
 
 /-! ## the hypotheses are satisfiable -/
 example : ∀ x, 4 ≤ (Keccak.keccak256 x).length := fun x => by simp [Keccak.keccak256]
